@@ -29,6 +29,8 @@ func runC03(c *Check, tier string) {
 	ruleR03c(c, "R03c")
 	ruleR03d(c)
 	ruleR03e(c)
+	// the walker releases by the graph's in-edges: nothing outside the graph may rewrite them
+	ruleAdjacencyNotAliased(c, "R03f")
 }
 
 type poolInfo struct {
